@@ -273,6 +273,22 @@ FLAG_PROGRAMS = [
 ]
 
 
+def compound_flag_programs(tier):
+    """one- and two-step compound assignments to the flag (a single step on
+    a boolean usually fails, a sequence may change its kind step by step)"""
+    ops = ["+=", "-=", "*=", "/=", "%="]
+    vals = ["''", "0", "1", "FALSE", "NULL", "[1]", "'x'", "0.0"]
+    one = [f"{FLAG} {o} {v}" for o in ops for v in vals]
+    if tier == "quick":
+        ops2, vals2 = ["+=", "*=", "-="], ["''", "0", "NULL", "FALSE"]
+    else:
+        ops2, vals2 = ops, vals
+    steps = [f"{FLAG} {o} {v}" for o in ops2 for v in vals2]
+    two = [f"do {a} catch all NULL end; do {b} catch all NULL end"
+           for a in steps for b in steps]
+    return one + two
+
+
 def path_pool(d):
     V = core.ckl.values
     S = V.ValueString
@@ -566,9 +582,12 @@ def main(tier, seed):
                 use = alias or n
                 progs.append((f"bind:{k}", src +
                               f"; do {use} catch all NULL end", False))
+    binds = "; ".join(f"do bind_native('{n}') catch all NULL end"
+                      for n in OS_NATIVES)
+    for fp in compound_flag_programs(tier):
+        progs.append(("flag-compound",
+                      f"do {fp} catch all NULL end; " + binds, True))
     for fp in FLAG_PROGRAMS:
-        binds = "; ".join(f"do bind_native('{n}') catch all NULL end"
-                          for n in OS_NATIVES)
         progs.append(("flag", f"do {fp} catch all NULL end; " + binds, True))
         progs.append(("flag-bare", fp, True))
     maxar = 2 if tier == "quick" else 3
